@@ -10,6 +10,7 @@
 -/
 import ASV.Proofs.ParallelSpec
 import ASV.Proofs.ParallelState
+import ASV.Proofs.ParallelWorkers
 namespace ASV.C18
 open ASV ASV.Parallel
 
@@ -333,7 +334,35 @@ theorem shipped_state_one_cpu {σ : Type} (configCpus cpus : Nat) (g : σ → α
     parallelFunctionShipped configCpus g s₀ args cpus hasTimeout evs = .returned (bs.map some) := by
   simp [parallelFunctionShipped, h1, hseq]
 
+/-! ### the worker functions of `pre_process_sequences` (pure functions of the record) -/
+
+/-- `sanitise_sequence` leaves only `A C G T N`, never lengthens the sequence … -/
+theorem sanitise_output_alphabet (r : SeqRec) (c : Char) (h : c ∈ (sanitiseSequence r).seq) :
+    c ∈ ['A', 'C', 'G', 'T', 'N'] ∧ (sanitiseSequence r).seq.length ≤ r.seq.length :=
+  ⟨sanitiseChars_alphabet r.seq c h, sanitiseChars_length_le r.seq⟩
+
+/-- … and is idempotent: a record that went through it (in a worker or not) is unchanged by a
+    second pass, sequence and skip flag alike -/
+theorem sanitise_idempotent (r : SeqRec) : sanitiseSequence (sanitiseSequence r) = sanitiseSequence r :=
+  sanitiseSequence_idempotent r
+
+/-- `ensure_cds_info`: a record that comes back without error is skipped or has genes; skipped
+    records come back untouched -/
+theorem ensure_cds_info_marks_geneless (gff3 toolNone : Bool) (gf : GeneFinder) (r r' : CdsRec)
+    (h : ensureCdsInfo gff3 toolNone gf r = .ok r') :
+    (truthy r'.skip = true ∨ 0 < r'.cds) ∧ (truthy r.skip = true → r' = r) := by
+  refine ⟨ensureCdsInfo_post gff3 toolNone gf r r' h, fun hs => ?_⟩
+  rw [ensureCdsInfo_skipped gff3 toolNone gf r hs] at h
+  cases h; rfl
+
 /-! ### non-vacuity: concrete batches, schedules and outcomes -/
+
+example : sanitiseSequence ⟨"ac-gtRyN-".toList, none⟩ = ⟨"ACGTNNN".toList, none⟩ := by decide
+example : sanitiseSequence ⟨"nn--RY".toList, none⟩ = ⟨"NNNN".toList, some "contains no sequence"⟩ := by decide
+example : ensureCdsInfo false false (.finds 0) ⟨none, 0⟩ = .ok ⟨some "No genes found", 0⟩ := rfl
+example : ensureCdsInfo false false .fails ⟨none, 0⟩ = .error "AntismashInputError" := rfl
+example : ensureCdsInfo false true .fails ⟨none, 0⟩ = .ok ⟨some "No genes found", 0⟩ := rfl
+example : ensureCdsInfo false false (.finds 3) ⟨none, 0⟩ = .ok ⟨none, 3⟩ := rfl
 
 /-- seeded change C18_3 in the model: if nothing is excluded from the worker list
     (`before = []`), the exit of the caller's earlier child 100 is read as a worker death … -/
